@@ -46,6 +46,8 @@ type WriterOptions struct {
 	Format FileFormat // which file format to write (default: FormatPFA)
 }
 
+const creationDateFormat = "2006-01-02 15:04:05 -0700 MST"
+
 var defaultWriterOptions = &WriterOptions{
 	Format: FormatPFA,
 }
@@ -231,6 +233,16 @@ func (f *Font) makeTemplateData(opt *WriterOptions) *fontInfo {
 		fontMatrix = [6]float64{0.001, 0, 0, 0.001, 0, 0}
 	}
 
+	creationDate := f.CreationDate
+	if !creationDate.IsZero() {
+		// Zones without a proper abbreviation are formatted in a way which
+		// cannot be read back.  Use UTC in this case.
+		_, err := time.Parse(creationDateFormat, creationDate.Format(creationDateFormat))
+		if err != nil {
+			creationDate = creationDate.UTC()
+		}
+	}
+
 	info := &fontInfo{
 		BlueFuzz:           f.Private.BlueFuzz,
 		BlueScale:          f.Private.BlueScale,
@@ -238,7 +250,7 @@ func (f *Font) makeTemplateData(opt *WriterOptions) *fontInfo {
 		BlueValues:         f.Private.BlueValues,
 		CharStrings:        f.encodeCharstrings(),
 		Copyright:          f.FontInfo.Copyright,
-		CreationDate:       f.CreationDate,
+		CreationDate:       creationDate,
 		Encoding:           f.Encoding,
 		UseStdEncoding:     f.canUseStandardEncoding(),
 		FamilyName:         f.FontInfo.FamilyName,
